@@ -102,8 +102,36 @@ def rules(ctx: Ctx) -> None:
                             ok = False
                 # ... from the SQL text or an existing object - a schema name fixed in the code (the placeholder, a literal) decides where an
                 # unqualified name lives without asking the configuration
-                fixed = [c_ for c_ in ast.walk(schema_arg) if isinstance(c_, ast.Call) and c_.args and isinstance(prog.try_fold(c_.args[0], f.mod, f), str)
+                def _fixed_name(e: ast.AST) -> bool:
+                    # the name handed to Schema(..) is - on some path - a constant of the code: a literal, the placeholder, also as the fallback of `x or ..` / `.. if c else ..`
+                    for v in [e] + list(prog.value_sources(f, e)):
+                        if isinstance(prog.try_fold(v, f.mod, f), str):
+                            return True
+                        if isinstance(v, ast.BoolOp) and any(_fixed_name(x) for x in v.values):
+                            return True
+                        if isinstance(v, ast.IfExp) and (_fixed_name(v.body) or _fixed_name(v.orelse)):
+                            return True
+                    return False
+
+                fixed = [c_ for sa_ in [schema_arg] + [v for v in prog.value_sources(f, schema_arg) if isinstance(v, ast.AST)] for c_ in ast.walk(sa_)
+                         if isinstance(c_, ast.Call) and c_.args and _fixed_name(c_.args[0])
                          and any(isinstance(x, Fn) and x.cls is Schema for x in prog.resolve_call(c_, f))]
+                # ... and it belongs to the name it is given to: the schema of ANOTHER object (`Table(new.raw_name, old.schema)`) places an unqualified
+                # name next to that object instead of in the default schema
+                name_arg = n.args[0] if n.args else next((k.value for k in n.keywords if k.arg == "name"), None)
+                def _roots(e: ast.AST) -> set[str]:
+                    out = set()
+                    for v in [e] + [x for x in prog.value_sources(f, e) if isinstance(x, ast.AST)]:
+                        for a_ in ast.walk(v):
+                            if isinstance(a_, ast.Attribute) and isinstance(a_.value, ast.Name):
+                                out.add(a_.value.id)
+                    return out
+                borrowed = [a_ for sa_ in [schema_arg] + [v for v in prog.value_sources(f, schema_arg) if isinstance(v, ast.AST)] for a_ in ast.walk(sa_)
+                            if isinstance(a_, ast.Attribute) and a_.attr == "schema" and isinstance(a_.value, ast.Name) and a_.value.id != "self"
+                            and name_arg is not None and _roots(name_arg) and a_.value.id not in _roots(name_arg)]
+                if borrowed:
+                    ctx.ob("R14.2", f"table-site:{f.qual.split('.', 2)[-1]}:schema-of-another-object", False, loc(f.mod, n),
+                           f"`{u(n)[:70]}` gives the name the schema of `{u(borrowed[0].value)}`: an unqualified name denotes a table of the default schema, wherever the other object lives")
                 ctx.ob("R14.2", f"table-site:{f.qual.split('.', 2)[-1]}:explicit-schema", ok and not fixed, loc(f.mod, n),
                        f"`{u(n)[:60]}` passes a schema computed in the enclosing call" + (f"; `{u(fixed[0])}` is a schema name fixed in the code: the configured default is never consulted for this table" if fixed else ""))
     ctx.floor("Table construction sites", n_sites, 5)
@@ -145,6 +173,7 @@ def rules(ctx: Ctx) -> None:
         fl = None
         for n in prog.walk_fn(f):
             tested: Optional[ast.AST] = None
+            against_default = False
             par = prog.parent(n)
             if isinstance(n, ast.expr) and _in_test_position(prog, n):
                 t = prog.infer(n, f)
@@ -160,11 +189,14 @@ def rules(ctx: Ctx) -> None:
                         if (isinstance(v, ast.Call) and not v.args and not v.keywords and any(isinstance(c_, Fn) and c_.cls is Schema for c_ in prog.resolve_call(v, f))) or (
                                 isinstance(v, ast.AST) and _reads_key(v)):
                             tested = n
+                            against_default = True
             if tested is None:
                 continue
             n_tests += 1
             qual = f"{f.cls.name}.{f.name}" if f.cls else f.name
             what = "warn-on-ignored-schema-param" if qual == "Table.__init__" else "metadata-only-for-known-schema" if qual == "SQLLineageHolder._build_digraph" else "definition" if qual == "Schema.__bool__" else "placeholder-test"
+            if against_default:
+                what = "compared-with-the-configured-default"  # no allow entry covers this form: its outcome changes with the configuration
             if (qual, what) in allow:
                 # re-check the reason structurally where possible
                 ok_reason = True
